@@ -9,6 +9,7 @@ name=$1; patch=$(readlink -f "$2"); shift 2
 root=/tmp/seedtry/$name
 rm -rf "$root"; mkdir -p "$root"
 cleanup() {
+  if [ -n "${KEEP_FOUND:-}" ] && [ -d "$root/verif/replays-found" ]; then rm -rf "$KEEP_FOUND"; cp -r "$root/verif/replays-found" "$KEEP_FOUND"; fi
   git -C /repo worktree remove --force "$root/repo" >/dev/null 2>&1
   rm -rf "$root"
   git -C /repo worktree prune
